@@ -57,6 +57,15 @@ def _new_frame(rng, fr):
             for r in rows:
                 c["values"][r] = rng.choice([9, 0, 0])   # 0 never occurs in training (codes 2, 10, -3, ...)
             placed["k"] = rows
+    # the new column as a pandas Categorical that DECLARES the training levels and the unseen ones (a column read
+    # from a file with a fixed category list): what is unseen is decided by the values, not by the declaration
+    if rng.random() < 0.35:
+        for c in new["columns"]:
+            if c["name"] in ("f", "g", "h") and c["type"] == "str":
+                train = next(x for x in fr["columns"] if x["name"] == c["name"])["values"]
+                cats = sorted(set(train) | set(c["values"]) | ({"ZZ-declared-only"} if rng.random() < 0.5 else set()))
+                c["type"] = "cat"
+                c["categories"] = cats
     # the new frame's index is not 0..m-1 in order (sorted / filtered / shuffled frames are the norm)
     r = rng.random()
     if r < 0.4:
